@@ -34,6 +34,15 @@ pub enum SvcMethod<'a> {
     Slow { cid: u32, seq: u32, polls: u32 },
     #[serde(rename = "org.example.Stream")]
     Stream { cid: u32, seq: u32, flags: Vec<u8>, ends: bool },
+    /// A call with a (possibly very large) payload whose reply only carries the payload's length,
+    /// so that big inbound messages do not also cost a big outbound one.
+    #[serde(rename = "org.example.Len")]
+    Len {
+        cid: u32,
+        seq: u32,
+        #[serde(borrow)]
+        pad: &'a str,
+    },
 }
 
 #[derive(Debug, Serialize)]
@@ -110,7 +119,7 @@ impl Service for SimService {
         call: Call<Self::MethodCall<'_>>,
     ) -> MethodReply<Self::ReplyParams<'ser>, Self::ReplyStream, Self::ReplyError<'ser>> {
         let (cid, seq) = match call.method() {
-            SvcMethod::Echo { cid, seq, .. } | SvcMethod::Fail { cid, seq } | SvcMethod::Slow { cid, seq, .. } | SvcMethod::Stream { cid, seq, .. } => (*cid, *seq),
+            SvcMethod::Echo { cid, seq, .. } | SvcMethod::Fail { cid, seq } | SvcMethod::Slow { cid, seq, .. } | SvcMethod::Stream { cid, seq, .. } | SvcMethod::Len { cid, seq, .. } => (*cid, *seq),
         };
         let extra = {
             let mut w = self.world.borrow_mut();
@@ -130,6 +139,10 @@ impl Service for SimService {
         }
         match call.method() {
             SvcMethod::Echo { cid, seq, pad } => MethodReply::Single(Some(EchoReply { cid: *cid, seq: *seq, pad: pad.to_string() })),
+            SvcMethod::Len { cid, seq, pad } => {
+                // the payload must have arrived intact: its checksum goes into the (small) reply
+                MethodReply::Single(Some(EchoReply { cid: *cid, seq: *seq, pad: format!("{}:{}", pad.len(), pad_sum(pad)) }))
+            }
             SvcMethod::Fail { cid, seq } => MethodReply::Error(SvcError::Failed { cid: *cid, seq: *seq }),
             SvcMethod::Slow { cid, seq, polls } => {
                 yield_n(&self.world, *polls as usize).await;
@@ -144,8 +157,7 @@ impl Service for SimService {
                     }
                     st.ends = *ends;
                     st.created = true;
-                    w.streams.push(st);
-                    let id = w.streams.len() - 1;
+                    let id = w.new_stream(st);
                     w.ev("svc.stream_start", *cid as u64, id as u64);
                     let sq = w.seq;
                     w.set_changes.push(sq);
@@ -162,6 +174,7 @@ impl Service for SimService {
 
 #[derive(Debug, Clone, PartialEq)]
 pub enum CallSpec {
+    Len { pad: usize, oneway: bool },
     Echo { pad: usize, oneway: bool },
     Fail { oneway: bool },
     Slow { polls: u32, oneway: bool },
@@ -171,7 +184,7 @@ pub enum CallSpec {
 impl CallSpec {
     pub fn oneway(&self) -> bool {
         match self {
-            CallSpec::Echo { oneway, .. } | CallSpec::Fail { oneway } | CallSpec::Slow { oneway, .. } => *oneway,
+            CallSpec::Echo { oneway, .. } | CallSpec::Fail { oneway } | CallSpec::Slow { oneway, .. } | CallSpec::Len { oneway, .. } => *oneway,
             CallSpec::Stream { .. } => false,
         }
     }
@@ -212,13 +225,19 @@ pub struct ClientSpec {
     pub after_quiet: bool,
 }
 
-fn padstr(n: usize, salt: u32) -> String {
+pub fn padstr(n: usize, salt: u32) -> String {
     let alphabet = b"abcdefghijklmnopqrstuvwxyz0123456789";
-    (0..n).map(|i| alphabet[(i * 5 + salt as usize) % alphabet.len()] as char).collect()
+    (0..n).map(|i| alphabet[(i * 5 + salt as usize + i / 251) % alphabet.len()] as char).collect()
+}
+
+/// Position-weighted checksum of a payload (a shifted or partly overwritten payload changes it).
+pub fn pad_sum(p: &str) -> u64 {
+    p.bytes().enumerate().fold(0u64, |h, (i, b)| h.wrapping_mul(31).wrapping_add(b as u64 ^ (i as u64 & 0xff)))
 }
 
 pub fn call_frame(cid: u32, seq: u32, c: &CallSpec) -> Vec<u8> {
     let mut v = match c {
+        CallSpec::Len { pad, .. } => json!({"method": "org.example.Len", "parameters": {"cid": cid, "seq": seq, "pad": padstr(*pad, cid * 7 + seq)}}),
         CallSpec::Echo { pad, .. } => json!({"method": "org.example.Echo", "parameters": {"cid": cid, "seq": seq, "pad": padstr(*pad, cid * 7 + seq)}}),
         CallSpec::Fail { .. } => json!({"method": "org.example.Fail", "parameters": {"cid": cid, "seq": seq}}),
         CallSpec::Slow { polls, .. } => json!({"method": "org.example.Slow", "parameters": {"cid": cid, "seq": seq, "polls": polls}}),
@@ -241,6 +260,10 @@ pub fn reference_output(cid: u32, calls: &[CallSpec]) -> (Vec<Value>, Vec<usize>
         let seq = seq as u32;
         match c {
             _ if c.oneway() => {}
+            CallSpec::Len { pad, .. } => {
+                let p = padstr(*pad, cid * 7 + seq);
+                out.push(json!({"parameters": {"cid": cid, "seq": seq, "pad": format!("{}:{}", p.len(), pad_sum(&p))}, "continues": false}))
+            }
             CallSpec::Echo { pad, .. } => out.push(json!({"parameters": {"cid": cid, "seq": seq, "pad": padstr(*pad, cid * 7 + seq)}, "continues": false})),
             CallSpec::Slow { .. } => out.push(json!({"parameters": {"cid": cid, "seq": seq, "pad": "slow"}, "continues": false})),
             CallSpec::Fail { .. } => out.push(json!({"error": "org.example.Failed", "parameters": {"cid": cid, "seq": seq}})),
@@ -289,7 +312,7 @@ pub struct ConnInfo {
 /// Lay a client's script onto a fresh pair of pipes and queue its connection.
 pub fn install_client(world: &World, spec: &ClientSpec) -> ConnInfo {
     let mut w = world.borrow_mut();
-    let c2s = w.new_pipe();
+    let c2s = if spec.after_quiet { w.new_dormant_pipe() } else { w.new_pipe() };
     let s2c = w.sink_pipe();
     let mut offset = 0usize;
     let mut ends = Vec::new();
@@ -386,7 +409,11 @@ pub fn install_client(world: &World, spec: &ClientSpec) -> ConnInfo {
     }
     w.pipes[c2s].close_when_done = close && !break_;
     w.pipes[c2s].break_when_done = break_;
-    w.listener.pending.push(PendingConn { c2s, s2c, after_quiet: spec.after_quiet });
+    if spec.after_quiet {
+        w.listener.pending_quiet.push_back(PendingConn { c2s, s2c, after_quiet: true });
+    } else {
+        w.listener.pending.push(PendingConn { c2s, s2c, after_quiet: false });
+    }
     ConnInfo { c2s, s2c, call_end_offsets: ends, first_faulty_call: first_faulty, write_fault }
 }
 
@@ -409,7 +436,11 @@ pub fn install_real_client(world: &World, spec: &ClientSpec) -> ConnInfo {
     let mut w = world.borrow_mut();
     let c2s = w.new_pipe();
     let s2c = w.new_pipe();
-    w.listener.pending.push(PendingConn { c2s, s2c, after_quiet: spec.after_quiet });
+    if spec.after_quiet {
+        w.listener.pending_quiet.push_back(PendingConn { c2s, s2c, after_quiet: true });
+    } else {
+        w.listener.pending.push(PendingConn { c2s, s2c, after_quiet: false });
+    }
     ConnInfo { c2s, s2c, call_end_offsets: Vec::new(), first_faulty_call: None, write_fault: None }
 }
 
